@@ -47,6 +47,20 @@ func runConstBoundUnchecked(r *Report, rule string, f *ssa.Function) int {
 				need, what = k+1, fmt.Sprintf("[%d]", k)
 			}
 		}
+		// a computed bound whose largest possible value is known (a constant plus a byte or 16-bit field
+		// of the input) applied to a buffer of fixed capacity: the largest value must fit
+		if sl, ok := in.(*ssa.Slice); ok && sl.High != nil {
+			if _, isConst := ConstInt(sl.High); isConst {
+				// constant bounds are decided below
+			} else if mx, ok := maxValue(sl.High, 0); ok {
+				if cp, ok := fixedCap(sl.X, 0); ok {
+					n++
+					if mx > cp && !mentionedInFacts(in.Block(), sl.High) {
+						r.Fail(rule, in.Pos(), fmt.Sprintf("slice bound %s can be as large as %d but the buffer holds %d: the largest input value panics", originSummary(sl.High), mx, cp), r.P.FuncName(f), fmt.Sprintf("bound-exceeds-buffer:%d>%d", mx, cp))
+					}
+				}
+			}
+		}
 		if x == nil || need == 0 {
 			return
 		}
@@ -266,6 +280,163 @@ func lengthTested(b *ssa.BasicBlock, x ssa.Value, need int64) bool {
 		}
 		if mentions(ft.Cond, 0) {
 			return true // not evaluated: undecided, not reported
+		}
+	}
+	return false
+}
+
+// maxValue: the largest value the integer expression can take, when that follows from its shape:
+// constants, conversions from 8/16-bit unsigned values, sums and products of such.
+func maxValue(v ssa.Value, d int) (int64, bool) {
+	if d > 6 || v == nil {
+		return 0, false
+	}
+	if k, ok := ConstInt(v); ok {
+		return k, true
+	}
+	switch x := v.(type) {
+	case *ssa.Convert:
+		if b, ok := x.X.Type().Underlying().(*types.Basic); ok {
+			switch b.Kind() {
+			case types.Uint8:
+				return 255, true
+			case types.Uint16:
+				return 65535, true
+			}
+		}
+		return maxValue(x.X, d+1)
+	case *ssa.BinOp:
+		a, ok1 := maxValue(x.X, d+1)
+		b, ok2 := maxValue(x.Y, d+1)
+		if !ok1 || !ok2 {
+			return 0, false
+		}
+		switch x.Op {
+		case token.ADD:
+			return a + b, true
+		case token.MUL:
+			return a * b, true
+		}
+		return 0, false
+	case *ssa.Phi:
+		var mx int64
+		for _, e := range x.Edges {
+			k, ok := maxValue(e, d+1)
+			if !ok {
+				return 0, false
+			}
+			if k > mx {
+				mx = k
+			}
+		}
+		return mx, true
+	case *ssa.UnOp:
+		if x.Op == token.MUL {
+			if b, ok := x.Type().Underlying().(*types.Basic); ok {
+				switch b.Kind() {
+				case types.Uint8:
+					return 255, true
+				case types.Uint16:
+					return 65535, true
+				}
+			}
+		}
+	case *ssa.Index:
+		if b, ok := x.Type().Underlying().(*types.Basic); ok && b.Kind() == types.Uint8 {
+			return 255, true
+		}
+	}
+	if b, ok := v.Type().Underlying().(*types.Basic); ok {
+		switch b.Kind() {
+		case types.Uint8:
+			return 255, true
+		case types.Uint16:
+			return 65535, true
+		}
+	}
+	return 0, false
+}
+
+// fixedCap: the capacity of the buffer when it is fixed here: make with constant size, or a slice of
+// a local array.
+func fixedCap(x ssa.Value, d int) (int64, bool) {
+	if d > 4 || x == nil {
+		return 0, false
+	}
+	switch v := x.(type) {
+	case *ssa.MakeSlice:
+		if k, ok := ConstInt(v.Cap); ok {
+			return k, true
+		}
+		return 0, false
+	case *ssa.Slice:
+		if v.Low != nil {
+			if k, ok := ConstInt(v.Low); !ok || k != 0 {
+				return 0, false
+			}
+		}
+		if p, ok := v.X.Type().Underlying().(*types.Pointer); ok {
+			if a, ok := p.Elem().Underlying().(*types.Array); ok {
+				if v.High == nil && v.Max == nil {
+					return a.Len(), true
+				}
+				return a.Len(), true
+			}
+		}
+		return fixedCap(v.X, d+1)
+	case *ssa.UnOp:
+		if al, ok := v.X.(*ssa.Alloc); ok && v.Op == token.MUL {
+			if sts := storesTo(al); len(sts) == 1 {
+				return fixedCap(sts[0].Val, d+1)
+			}
+		}
+	}
+	return 0, false
+}
+
+// mentionedInFacts: some dominating condition mentions the bound (or a value it is computed from).
+func mentionedInFacts(b *ssa.BasicBlock, v ssa.Value) bool {
+	parts := map[ssa.Value]bool{}
+	var collect func(x ssa.Value, d int)
+	collect = func(x ssa.Value, d int) {
+		if d > 5 || x == nil {
+			return
+		}
+		parts[x] = true
+		switch y := x.(type) {
+		case *ssa.BinOp:
+			collect(y.X, d+1)
+			collect(y.Y, d+1)
+		case *ssa.Convert:
+			collect(y.X, d+1)
+		case *ssa.Phi:
+			for _, e := range y.Edges {
+				collect(e, d+1)
+			}
+		}
+	}
+	collect(v, 0)
+	var hit func(x ssa.Value, d int) bool
+	hit = func(x ssa.Value, d int) bool {
+		if d > 5 || x == nil {
+			return false
+		}
+		if _, isC := x.(*ssa.Const); !isC && parts[x] {
+			return true
+		}
+		switch y := x.(type) {
+		case *ssa.BinOp:
+			return hit(y.X, d+1) || hit(y.Y, d+1)
+		case *ssa.Convert:
+			return hit(y.X, d+1)
+		case *ssa.UnOp:
+			return hit(y.X, d+1)
+		}
+		return false
+	}
+	for _, ft := range Facts(b) {
+		if hit(ft.Cond, 0) {
+			return true
 		}
 	}
 	return false
